@@ -173,11 +173,13 @@ class Ctx:
     def oblige(self, path, kind, desc, goal, lineno=None, tactic=None, meta=None, extra_hyps=()):
         if self.spec_mode > 0 and kind in ('defined',):
             return
-        if z3.is_true(goal):
+        trivial = z3.is_true(goal)
+        g = goal if trivial else z3.simplify(goal)
+        trivial = trivial or z3.is_true(g)
+        if trivial and not kind.startswith('post:'):
             return
-        g = z3.simplify(goal)
-        if z3.is_true(g):
-            return
+        # a postcondition that evaluates to true on a path is still an obligation of the contract (discharged by evaluation):
+        # it is counted and enters the ledger, so that its failure after a change is a regression of a discharged obligation
         hyps = list(path.pc) + list(extra_hyps)
         key = (kind, g.get_id(), tuple(h.get_id() for h in hyps))
         if key in self.ob_seen:
@@ -185,6 +187,7 @@ class Ctx:
         base = f'{self.ob_prefix}/{kind}'
         n = sum(1 for o in self.obligations if o.id.startswith(base + '#'))
         ob = Obligation(f'{base}#{n + 1}', kind, desc, hyps, goal, lineno, tactic, meta)
+        ob.trivial = trivial
         ob.n_axioms = len(self.axioms)      # only what was known when the obligation arose (no lemma proves itself)
         self.ob_seen[key] = ob
         self.obligations.append(ob)
